@@ -8,7 +8,8 @@ COQ_IMPORTS = 'From PB Require Import model.M_loop.\nFrom Coq Require Import Ari
 COQ_PRELUDE = ''
 PER_FILE = 300
 CASE_TIMEOUT = 20
-RULE = ('kinds: loop = loop(list,tuple,dict)(f) on random nestings of lists / tuples / dict, OrderedDict, Dict, dictattr to depth 4 (empty containers included) '
+RULE = ('kinds: loop = loop(list,tuple,dict)(f) on random nestings of lists / tuples / dict, OrderedDict, Dict, dictattr to depth 4 (empty containers included; dict keys are strings, ints, floats, tuples, None, '
+        'and in the lifted argument also mixes of those families) '
         'with 0-3 companions that are scalars, same-shape, same-shape-at-the-top, different-shape or "deep" (a sub-container of the matching length / keys), passed '
         'positionally, by keyword or mixed (also the lifted argument itself by keyword), f recording exactly what it receives (lambda a,*args,**kw) or binding named '
         'parameters (lambda a,b=None,c=None); lib = lower upper strip proper capitalize replace split f12 as_float on nested structures of strings / numbers / None; '
@@ -26,7 +27,7 @@ TRUSTED = ['modelled, not verified: the asyncio scheduler (event loop, gather, F
            'resolved once), the real loop is only sampled by the enumerated completion orders',
            'modelled, not verified: Python argument binding (*args / **kwargs / defaults) as f_named; str methods behind the lifted text helpers (leaf values are carried, the oracle '
            'applies the helper to each bare leaf)']
-ASSUMPTIONS = ['dict keys are strings (sortable)', 'no keyword named axis', 'containers are exactly list, tuple, dict, OrderedDict, Dict, dictattr',
+ASSUMPTIONS = ['dict keys are hashable leaves (str, int, float, tuple, None); Dict / dictattr are not given tuple keys (they read a tuple key as a path)', 'no keyword named axis', 'containers are exactly list, tuple, dict, OrderedDict, Dict, dictattr',
                'known finding: a companion of different length / keys that contains a sub-container of the matching length / keys is not broadcast (C19_broadcast_refuted); broadcast is proved for companions without one']
 EXHAUSTIVE = {'quick': False, 'thorough': False}
 LEVEL_TEXT = ('machine-checked Coq theorems for all nestings / companions / schedules: shape and container types preserved, each leaf = f(leaf, companions at its path), element-wise matching vs broadcast, '
@@ -94,6 +95,23 @@ def impl_setup():
     F_RECORD = loop(list, tuple, dict)(lambda a, *args, **kw: (a, args, kw))
     F_NAMED = loop(list, tuple, dict)(lambda a, b=None, c=None: (a, b, c))
 
+# dict keys: id 0-9 -> 'k0'..'k9'; 10-19 -> the int; 20-29 -> id+0.5 (float); 30-39 -> a tuple (id,) / (id, 'x'); 40 -> None.
+# The model only compares key SETS (sorted lists of ids), so the id order need not be Python's order.
+def pykey(k):
+    if k < 10: return 'k%d' % k
+    if k < 20: return k
+    if k < 30: return k + 0.5
+    if k < 40: return (k,) if k % 2 == 0 else (k, 'x')
+    return None
+def keyid(key):
+    if key is None: return 40
+    if isinstance(key, str): return int(key[1:])
+    if isinstance(key, tuple): return key[0]
+    if isinstance(key, float): return int(key - 0.5)
+    return key
+def key_class(k):
+    return 'str' if k < 10 else 'num' if k < 30 else 'tuple' if k < 40 else 'none'
+
 def build(s, leaf=lambda k: None if k == -1 else k):
     if isinstance(s, int):
         return leaf(s)
@@ -102,7 +120,7 @@ def build(s, leaf=lambda k: None if k == -1 else k):
     if 'T' in s:
         return tuple(build(x, leaf) for x in s['T'])
     cls, items = s['D']
-    return CLS[cls]({'k%d' % k: build(v, leaf) for k, v in items})
+    return CLS[cls]({pykey(k): build(v, leaf) for k, v in items})
 
 def render(x):
     """python value -> the nested-list observation X_loop.J_of produces"""
@@ -117,7 +135,7 @@ def render(x):
     if type(x) is tuple:
         return ['T'] + [render(v) for v in x]
     if type(x) in CLS:
-        return ['D', CLS.index(type(x))] + [[int(k[1:]), render(v)] for k, v in x.items()]
+        return ['D', CLS.index(type(x))] + [[keyid(k), render(v)] for k, v in x.items()]
     raise TypeError('cannot render %r' % type(x))
 
 def lift(g, arg, pos, kw):
@@ -129,10 +147,10 @@ def lift(g, arg, pos, kw):
             return c[i] if isinstance(c, (list, tuple)) and len(c) == n else c
         return type(arg)([lift(g, arg[i], [pick(c, i) for c in pos], {k: pick(c, i) for k, c in kw.items()}) for i in range(n)])
     if isinstance(arg, dict):
-        keys = sorted(arg.keys())
+        keys = set(arg.keys())
         def pickk(c, key):
-            return c[key] if isinstance(c, dict) and sorted(c.keys()) == keys else c
-        return type(arg)({key: lift(g, arg[key], [pickk(c, key) for c in pos], {k: pickk(c, key) for k, c in kw.items()}) for key in arg.keys()})
+            return dict.__getitem__(c, key) if isinstance(c, dict) and set(c.keys()) == keys else c
+        return type(arg)({key: lift(g, dict.__getitem__(arg, key), [pickk(c, key) for c in pos], {k: pickk(c, key) for k, c in kw.items()}) for key in arg.keys()})
     return g(arg, *pos, **kw)
 
 def same(a, b):
@@ -141,7 +159,7 @@ def same(a, b):
     if isinstance(a, (list, tuple)):
         return len(a) == len(b) and all(same(x, y) for x, y in zip(a, b))
     if isinstance(a, dict):
-        return list(a.keys()) == list(b.keys()) and all(same(a[k], b[k]) for k in a)
+        return list(a.keys()) == list(b.keys()) and all(same(dict.__getitem__(a, k), dict.__getitem__(b, k)) for k in a)
     if isinstance(a, float):
         return a == b or (a != a and b != b)
     return a == b
@@ -197,9 +215,9 @@ def guided(node, res, exp, counter):
             return 'BADSHAPE'
         return ['L' if tp is list else 'T'] + [guided(x, r, e, counter) for x, r, e in zip(xs, res, exp)]
     cls, items = node['D']
-    if type(res) is not CLS[cls] or list(res.keys()) != ['k%d' % k for k, _ in items]:
+    if type(res) is not CLS[cls] or list(res.keys()) != [pykey(k) for k, _ in items]:
         return 'BADSHAPE'
-    return ['D', cls] + [[k, guided(v, res['k%d' % k], exp['k%d' % k], counter)] for k, v in items]
+    return ['D', cls] + [[k, guided(v, dict.__getitem__(res, pykey(k)), dict.__getitem__(exp, pykey(k)), counter)] for k, v in items]
 
 def _bad(o):
     return o in (-99, 'BADSHAPE') or (isinstance(o, list) and any(_bad(x) for x in o))
@@ -299,7 +317,7 @@ def build_w(s, aw):
     if 'T' in s:
         return tuple(build_w(x, aw) for x in s['T'])
     cls, items = s['D']
-    return CLS[cls]({'k%d' % k: build_w(v, aw) for k, v in items})
+    return CLS[cls]({pykey(k): build_w(v, aw) for k, v in items})
 
 def subst_py(s, results):
     return build_w(s, lambda i: results[i])
@@ -346,18 +364,41 @@ class Ctr:
     def next(self):
         self.n += 1; return self.n - 1
 
-def rand_struct(rng, d, ctr, p_leaf=0.25, widths=(0, 1, 2, 2, 3, 3), leaf=None):
+def rand_keys(rng, w, mixed):
+    """w dict keys of one family (strings / ints / ints+floats / tuples / None), or - mixed - of several; returns (key ids, allowed classes)"""
+    r = rng.random()
+    if r < 0.55:
+        return rng.sample(range(10), w), [0, 0, 0, 1, 2, 3]
+    if r < 0.68:
+        return rng.sample(range(10, 20), w), [0, 0, 1, 2, 3]
+    if r < 0.76:
+        return rng.sample(range(10, 30), w), [0, 0, 1, 2, 3]
+    if r < 0.86:
+        return rng.sample(range(30, 40), w), [0, 1]              # dictattr / Dict read a tuple key as a path
+    if r < 0.90:
+        return [40][:w], [0, 0, 1, 2, 3]
+    if mixed and w >= 2:
+        pools = rng.sample([range(10), range(10, 30), range(30, 40), [40]], 2)
+        ks = [rng.choice(list(pools[0])), rng.choice(list(pools[1]))]
+        while len(ks) < w:
+            k = rng.choice(list(rng.choice(pools)))
+            if k not in ks: ks.append(k)
+        rng.shuffle(ks)
+        return ks, ([0, 1] if any(30 <= k < 40 for k in ks) else [0, 0, 1, 2, 3])
+    return rng.sample(range(10), w), [0, 0, 0, 1, 2, 3]
+
+def rand_struct(rng, d, ctr, p_leaf=0.25, widths=(0, 1, 2, 2, 3, 3), leaf=None, mixed=False):
     leaf = leaf or (lambda: ctr.next())
     if d == 0 or rng.random() < p_leaf:
         return leaf()
     w = rng.choice(widths)
     r = rng.random()
     if r < 0.4:
-        return {'L': [rand_struct(rng, d - 1, ctr, p_leaf, widths, leaf) for _ in range(w)]}
+        return {'L': [rand_struct(rng, d - 1, ctr, p_leaf, widths, leaf, mixed) for _ in range(w)]}
     if r < 0.65:
-        return {'T': [rand_struct(rng, d - 1, ctr, p_leaf, widths, leaf) for _ in range(w)]}
-    keys = rng.sample(range(10), w)
-    return {'D': [rng.choice([0, 0, 0, 1, 2, 3]), [[k, rand_struct(rng, d - 1, ctr, p_leaf, widths, leaf)] for k in keys]]}
+        return {'T': [rand_struct(rng, d - 1, ctr, p_leaf, widths, leaf, mixed) for _ in range(w)]}
+    keys, classes = rand_keys(rng, w, mixed)
+    return {'D': [rng.choice(classes), [[k, rand_struct(rng, d - 1, ctr, p_leaf, widths, leaf, mixed)] for k in keys]]}
 
 def same_shape(rng, s, ctr, cut=99, swap=True):
     """a companion with the skeleton of s (lists/tuples possibly swapped, dict keys reordered), cut to leaves below depth cut"""
@@ -371,7 +412,7 @@ def same_shape(rng, s, ctr, cut=99, swap=True):
     items2 = [[k, same_shape(rng, v, ctr, cut - 1, swap)] for k, v in items]
     if rng.random() < 0.3:
         rng.shuffle(items2)
-    return {'D': [rng.choice([cls, 0]), items2]}
+    return {'D': [rng.choice([cls, 0]), items2]}      # class 0 (dict) accepts every key
 
 def companion(rng, arg, ctr):
     r = rng.random()
@@ -389,7 +430,7 @@ def companion(rng, arg, ctr):
 
 def gen_loop(rng):
     ctr = Ctr(0)
-    arg = rand_struct(rng, rng.choice([1, 2, 2, 3, 3, 4]), ctr, p_leaf=0.15)
+    arg = rand_struct(rng, rng.choice([1, 2, 2, 3, 3, 4]), ctr, p_leaf=0.15, mixed=True)
     named = rng.random() < 0.4
     ncomp = rng.choice([0, 1, 1, 2, 2, 3]) if not named else rng.choice([1, 1, 2, 2])
     comps = [companion(rng, arg, Ctr(100 * (i + 1))) for i in range(ncomp)]
@@ -418,7 +459,7 @@ def gen_lib(rng):
         else:
             v = rng.choice(STRS) if r < 0.85 else rng.choice([3, None, 2.5])
         leaves.append(v); return len(leaves) - 1
-    arg = rand_struct(rng, rng.choice([0, 1, 2, 3, 4]), None, p_leaf=0.2, leaf=leaf)
+    arg = rand_struct(rng, rng.choice([0, 1, 2, 3, 4]), None, p_leaf=0.2, leaf=leaf, mixed=True)
     extra = {}
     if fn == 'replace':
         extra = {'old': rng.choice(['a', ' ', 'b', ['a', 'b', 'c', 'l', 'o'], 'll']), 'new': rng.choice([None, '_', 'Z'])}
@@ -459,7 +500,7 @@ def gen_wait(rng, maxm):
         if ids and rng.random() < 0.6:
             return {'A': ids.pop()}
         return ctr.next()
-    w = rand_struct(rng, rng.choice([1, 2, 3, 4]), None, p_leaf=0.3, widths=(1, 2, 2, 3, 3), leaf=leaf)
+    w = rand_struct(rng, rng.choice([1, 2, 3, 4]), None, p_leaf=0.3, widths=(1, 2, 2, 3, 3), leaf=leaf, mixed=True)
     if ids:   # place the remaining awaitables at the top
         w = {'L': [w] + [{'A': i} for i in ids]}
     rc = Ctr(100)
